@@ -115,11 +115,21 @@ def wl_expansion(ctx, rng, case):
     cfg.capacity = rng.choice([1, 1, 2, 2, 3])
     cfg.bucket_size = rng.choice([1, 1, 2])
     cfg.max_swaps = rng.choice([1, 1, 2, 3])
-    keys = ck.gen_keys(rng, cfg, rng.randint(4, 10))
+    explicit = case.index % 4 == 1
+    if explicit:
+        # EXPLICIT expansions of a filter that may not grow on its own (auto_expand off), with one kick per insertion and, half of the time,
+        # a non-growing rate: the rebuild often fails - and must then leave every key where it was
+        cfg.auto_expand, cfg.max_swaps, cfg.bucket_size = False, 1, rng.choice([1, 1, 2])
+        cfg.capacity = rng.choice([4, 8, 12, 16])
+        cfg.expansion_rate = rng.choice([1, 1, 2])
+        ctx.count("cases_with_explicit_expansions_of_a_filter_that_may_not_grow")
+    keys = ck.gen_keys(rng, cfg, rng.randint(4, 10) if not explicit else cfg.capacity * cfg.bucket_size)
     if len(keys) < 3:
         return
     ops = ck.gen_history(rng, keys, rng.randint(5, 12), p_remove=0.1, p_expand=0.1, p_reload=0.05)
-    case.desc = dict(cfg.desc(), n_keys=len(keys), kind="auto-expansion on tiny tables")
+    if explicit:
+        ops = [("add", k) for k in keys] + [("expand",), ("add", keys[0]), ("expand",), ("remove", keys[-1]), ("expand",)] + ops[:4]
+    case.desc = dict(cfg.desc(), n_keys=len(keys), kind="auto-expansion on tiny tables" if not explicit else "explicit expansions, auto_expand off")
     for op in ops:
         case.op(*op)
     ex, stats = explore_case(ctx, rng, case, cfg, keys, ops, 600 if ctx.tier == "quick" else 30000, extra=60)
